@@ -1,10 +1,12 @@
 package main
 
 import (
+	"encoding/json"
 	"fmt"
 	"os"
 	"sort"
 	"strconv"
+	"strings"
 	"time"
 )
 
@@ -72,5 +74,71 @@ func runOne(dir, verifDir, id, tier string, started time.Time) (rc int) {
 		}()
 		r = registry[id](ctx)
 	}()
+	if tier == "thorough" && r != nil {
+		thoroughExtras(ctx, id, r)
+	}
 	return finish(ctx, r, started, seedFromEnv())
+}
+
+// thoroughExtras: (1) the same rules on two further load configurations
+// (GOARCH=386, build tag verif) must yield the same obligations with the same
+// outcome — a file or branch hidden behind a build constraint would show up
+// as a difference; (2) the result of the checker's both-ways self-test
+// (variant corpus and seeded changes), produced by tools/thorough.sh, is
+// attached to the evidence.
+func thoroughExtras(ctx *Ctx, id string, r *Result) {
+	r.rule("E0.2", "thorough: identical obligations under GOARCH=386 and under build tag `verif`", 2)
+	base := map[string]bool{}
+	for _, o := range r.Obls {
+		base[o.Key()] = o.OK
+	}
+	for _, alt := range []struct {
+		name string
+		env  []string
+		tags string
+	}{{"GOARCH=386", []string{"GOARCH=386"}, ""}, {"tags=verif", nil, "verif"}} {
+		p2, err := Load(ctx.P.Dir, alt.env, alt.tags)
+		if err != nil {
+			r.undecided("E0.2", alt.name, err.Error())
+			continue
+		}
+		ctx2 := &Ctx{P: p2, Tier: "quick", VerifDir: ctx.VerifDir, cache: map[string]any{}}
+		var r2 *Result
+		func() {
+			defer func() {
+				if e := recover(); e != nil {
+					r2 = nil
+				}
+			}()
+			r2 = registry[id](ctx2)
+		}()
+		if r2 == nil {
+			r.undecided("E0.2", alt.name, "analysis panicked under this load configuration")
+			continue
+		}
+		diff := ""
+		other := map[string]bool{}
+		for _, o := range r2.Obls {
+			other[o.Key()] = o.OK
+			if v, ok := base[o.Key()]; !ok {
+				diff = "obligation only under " + alt.name + ": " + o.Key()
+			} else if v != o.OK {
+				diff = "obligation decided differently under " + alt.name + ": " + o.Key()
+			}
+		}
+		for k := range base {
+			if _, ok := other[k]; !ok && !strings.HasPrefix(k, "E0.2") {
+				diff = "obligation missing under " + alt.name + ": " + k
+			}
+		}
+		r.check(diff == "", "E0.2", alt.name, "", diff, len(r2.Obls))
+	}
+	if f := os.Getenv("VERIF_SELFTEST"); f != "" {
+		if b, err := os.ReadFile(f); err == nil {
+			var v any
+			if json.Unmarshal(b, &v) == nil {
+				r.Samples = append([]any{map[string]any{"checker_selftest": v}}, r.Samples...)
+			}
+		}
+	}
 }
